@@ -3,16 +3,14 @@
    rules) and for the checker's normaliser / conversion test as mirrored by Oracle/Infer.v:
    every evaluation step, hence every value a program evaluates to, is definitionally equal to the
    program; a weak-head normal form is never a group (unify's panic arm is unreachable); the
-   conversion test never refutes t = t; a successful test implies definitional equality. That the
-   mirrors are the implementation's normalize_weak_head / unify on hole-free terms, symmetry, and
-   agreement with equality of normal forms are decided by the streams (stated below, not proved). *)
+   conversion test never refutes t = t; a successful test implies definitional equality; the test is
+   symmetric (same verdict and same fuel behaviour with the sides swapped); and whenever both sides
+   have normal forms the test says `true` exactly when the normal forms (parameter annotations of
+   functions erased) are equal. That the mirrors are the implementation's normalize_weak_head / unify
+   on hole-free terms is decided by the streams. *)
 From Coq Require Import List ZArith Bool Relations.
 Import ListNotations.
-Require Import Gram.Model.Term Gram.Model.DeBruijn Gram.Model.Eval Gram.Spec.Typing Gram.Oracle.Infer Gram.Proofs.InferSound Gram.Proofs.ConvProofs.
-
-Definition C06_symmetry_statement : Prop := forall fuel G a b, convb fuel G a b = convb fuel G b a.
-Definition C06_normal_form_statement : Prop :=
-  forall fuel G a b na nb, nf fuel G a = Some na -> nf fuel G b = Some nb -> convb fuel G a b = Some true -> na = nb.
+Require Import Gram.Model.Term Gram.Model.DeBruijn Gram.Model.Eval Gram.Spec.Typing Gram.Oracle.Infer Gram.Proofs.InferSound Gram.Proofs.ConvProofs Gram.Proofs.ConvSym.
 
 Theorem C06_step_in_conv : forall t G t', step t = Some t' -> conv G t t'.
 Proof. exact step_in_conv. Qed.
@@ -38,3 +36,28 @@ Theorem C06_convb_sound : forall fuel G a b, convb fuel G a b = Some true -> con
 Proof. exact convb_sound. Qed.
 Check C06_convb_sound : forall fuel G a b, convb fuel G a b = Some true -> conv G a b.
 Print Assumptions C06_convb_sound.
+
+Theorem C06_convb_symmetric : forall fuel G a b, convb fuel G a b = convb fuel G b a.
+Proof. exact convb_sym. Qed.
+Check C06_convb_symmetric : forall fuel G a b, convb fuel G a b = convb fuel G b a.
+Print Assumptions C06_convb_symmetric.
+
+Theorem C06_convb_iff_normal_forms_equal : forall fuel G a b na nb,
+  nf fuel G a = Some na -> nf fuel G b = Some nb ->
+  exists v, convb fuel G a b = Some v /\ (v = true <-> na = nb).
+Proof. exact convb_iff_nf. Qed.
+Check C06_convb_iff_normal_forms_equal : forall fuel G a b na nb,
+  nf fuel G a = Some na -> nf fuel G b = Some nb ->
+  exists v, convb fuel G a b = Some v /\ (v = true <-> na = nb).
+Print Assumptions C06_convb_iff_normal_forms_equal.
+
+Theorem C06_normal_form_is_equal_to_term : forall fuel G t n, nf fuel G t = Some n -> conv G t n.
+Proof. exact nf_sound. Qed.
+Check C06_normal_form_is_equal_to_term : forall fuel G t n, nf fuel G t = Some n -> conv G t n.
+Print Assumptions C06_normal_form_is_equal_to_term.
+
+(* non-vacuity: both hypotheses hold together on a concrete pair with beta, delta and arithmetic *)
+Example C06_nf_example :
+  nf 20 [] (TApp (TLam false TInt (TBin OSum (TVar 0) (TLit 1))) (TLit 2)) = Some (TLit 3) /\
+  nf 20 [] (TLet [(TInt, TLit 3)] (TVar 0)) = Some (TLit 3).
+Proof. split; vm_compute; reflexivity. Qed.
